@@ -4,6 +4,7 @@ CONSTANTS
     CacheSound = FALSE
     MaxAlter = 1
     TamperFields = {"resign", "prev", "epoch", "avk", "params", "nextAvk", "nextParams", "sig"}
+    MsgModes = {"k", "r"}
     ForgeEpochs = {1, 2, 3, 4}
     Forge2Pars = {"p"}
     ForgeKeys = {"A", "H4"}
